@@ -67,7 +67,9 @@ def showMon (m : Option String) : String :=
 /-- short input class: kind / response kind / mode / URI shape / what was observed -/
 def classOf (l : Line) : String :=
   let src := if bool l "src" then s!":{str l "src.router"}:{str l "src.channel"}:{str l "src.outcome"}:{str l "src.err.kind"}:{str l "src.err.class"}" else ""
-  s!"{str l "kind"}:{str l "sub"}:{if str l "mode" == "" then "default" else str l "mode"}:{str l "shape"}:{str l "obs"}{src}"
+  -- the length dimension (c11len.go): which parameter sits at which boundary, how (raw / encoded length, straddling character)
+  let len := if has l "len.b" then s!":len:{str l "len.param"}:{str l "len.b"}:{str l "len.shape"}{if has l "len.err" then ":" ++ str l "len.err" else ""}" else ""
+  s!"{str l "kind"}:{str l "sub"}:{if str l "mode" == "" then "default" else str l "mode"}:{str l "shape"}:{str l "obs"}{src}{len}"
 
 def stepMon (l : Line) : String :=
   s!"case={str l "case"} class={classOf l} model=- observed={str l "obs"} monitor={showMon (monitorLine l)} agree=1"
